@@ -298,9 +298,18 @@ def uncertainty_tokenizer(input_string: str) -> Generator[TokenInfo, None, None]
             )
             std_dev = next(toklist)
             if "." not in std_dev.string:
+                # the digits apply to the last digits of the nominal value:
+                # 1.234(5) -> 0.005, 12(3) -> 3, 1.2(34) -> 3.4
+                mantissa = nominal_value.string.lower().split("e")[0]
+                decimals = len(mantissa.split(".")[1]) if "." in mantissa else 0
+                digits = std_dev.string.rjust(decimals + 1, "0")
                 std_dev = tokenize.TokenInfo(
                     type=std_dev.type,
-                    string="0." + std_dev.string,
+                    string=(
+                        digits[: len(digits) - decimals]
+                        + "."
+                        + digits[len(digits) - decimals :]
+                    ),
                     start=std_dev.start,
                     end=std_dev.end,
                     line=line,
